@@ -846,10 +846,10 @@ func (lf *lexFolder) stateKey(fr *lexFrame, pos, reads int, emitted string) stri
 // besides the cursor that next() adds to.
 func (lf *lexFolder) isLastWidth(fa *ssa.FieldAddr) bool {
 	pt, ok := fa.X.Type().Underlying().(*types.Pointer)
-	if !ok || !types.Identical(pt.Elem(), lf.c.A.LexerT) {
+	if !ok || !inFam(lf.c.A.LexerFam, pt.Elem()) {
 		return false
 	}
-	return fieldName(lf.c.A.LexerT, fa.Field) == "lastWidth"
+	return fieldName(pt.Elem(), fa.Field) == "lastWidth"
 }
 
 // lexCheck compares the folded outcomes for one input prefix with the grammar.
